@@ -716,6 +716,17 @@ end
 def hstyleOk (S : HStyle) : Bool :=
   S.firstChild != S.stem && S.firstChild != S.subsequentChild &&
   S.lastChild != S.stem && S.lastChild != S.subsequentChild &&
-  S.branch != ' ' && S.stem != ' ' && S.firstChild != S.lastChild
+  S.branch != ' ' && S.stem != ' ' && S.firstChild != S.lastChild &&
+  S.splitBranch != S.branch && S.middleChild != S.branch
+
+/-- names the horizontal decoder can read back: non-empty, no white space -/
+def hnameOk (n : Str) : Bool := !n.isEmpty && n.all fun c => !pySpace c
+
+def hnamesOk : HTree → Bool
+  | .hole => true
+  | .node n cs => hnameOk n && hnamesOkL cs
+where hnamesOkL : List HTree → Bool
+  | [] => true
+  | c :: cs => hnamesOk c && hnamesOkL cs
 
 end Render
